@@ -44,6 +44,7 @@ OrdDefined(q) ==
     IF q.op = "src" THEN TRUE
     ELSE CASE q.op \in {"merge", "sort", "setindex", "dropdup", "nlargest", "unique", "valuecounts", "shuffle"} -> FALSE
            [] q.op \in {"groupby", "reduce", "len"} -> TRUE
+           [] q.op = "mergeasof" -> OrdDefined(q.c[1])         \* one output row per left row, in the left order
            [] q.op = "combinefirst" -> FALSE        \* aligned through a hash shuffle when divisions are unknown
            [] OTHER -> OrdDefined(q.c[1])
 RECURSIVE IdxDefined(_)
